@@ -104,8 +104,16 @@ def gen_line_curve(ctx, count):
         tries += 1
         n = rng.randint(2, 6)
         curve = rand_curve(rng, n, 4, 1)
-        kind = rng.choice(["random", "through-end", "random"])
-        if kind == "through-end":
+        kind = rng.choice(["random", "through-end", "random", "axis"])
+        if kind == "axis":
+            # axis-parallel segment in one of the four directions (exactly zero tangent component, either sign of the other)
+            lo, hi = sorted((dyadic(rng, 4, 1), dyadic(rng, 4, 1)))
+            c0 = dyadic(rng, 4, 1)
+            if lo == hi:
+                continue
+            ends = (lo, hi) if rng.random() < 0.5 else (hi, lo)
+            line = [[ends[0], ends[1]], [c0, c0]] if rng.random() < 0.5 else [[c0, c0], [ends[0], ends[1]]]
+        elif kind == "through-end":
             p = (curve[0][0], curve[1][0]) if rng.random() < 0.5 else (curve[0][-1], curve[1][-1])
             d = (F(rng.randint(-6, 6), 2), F(rng.randint(-6, 6), 2))
             if d == (0, 0):
@@ -209,6 +217,29 @@ def gen_curve_curve(ctx, count, max_deg=4):
     for (c1, c2, fam), r in zip(pairs, res):
         if r is not None and len(out) < count:
             out.append({"c1": c1, "c2": c2, "expected": list(r), "kind": "curve-curve:" + fam})
+    return out
+
+
+def gen_end_on_curve(ctx, count):
+    """an END point of the second curve lies in the interior of the first (dyadic nets on the 1/8 grid, parameter k/16): the
+    refined parameter of the second curve is 0 or 1 up to rounding and must be snapped into [0,1]"""
+    rng = ctx.rng
+    out = []
+    for _ in range(count):
+        n1, n2 = rng.randint(1, 4), rng.randint(1, 4)
+        c1 = [[F(rng.randint(-8, 8), 8) for _ in range(n1 + 1)] for _ in range(2)]
+        c2 = [[F(rng.randint(-8, 8), 8) for _ in range(n2 + 1)] for _ in range(2)]
+        s0 = F(rng.randint(1, 15), 16)
+        p = [oq.bernstein(c1[0], s0), oq.bernstein(c1[1], s0)]
+        if not all(F(float(x)) == x for x in p):
+            continue
+        k = rng.choice([0, -1])
+        c2[0][k], c2[1][k] = p
+        if len(set(zip(*c1))) < 2 or len(set(zip(*c2))) < 2:
+            continue
+        if rng.random() < 0.5:
+            c1, c2 = c2, c1
+        out.append({"c1": c1, "c2": c2, "kind": "end-on-curve"})
     return out
 
 
